@@ -388,6 +388,16 @@ def make_builtins(interp):
         return PyList(bm.iterate(interp, v))
     ns["iter"] = iter_
 
+    @_b("next")
+    def next_(interp, it, *default):
+        if isinstance(it, Instance):
+            f, _ = interp.class_lookup(it.cls, "__next__")
+            if f is not None:
+                return interp.call(interp.bind(it, f), [], {})
+            interp.throw("TypeError", "object is not an iterator")
+        raise Unsupported("next() on a builtin iterator")
+    ns["next"] = next_
+
     @_b("ord")
     def ord_(interp, c):
         return ord(c)
